@@ -1,7 +1,7 @@
 /-
   UnytModel.Ops.C01 — opcodes of the C01 model (prefix `c01.`).
 
-  c01.dispatch  <ufunc> <method> <nin> <operand>… <out> <axisLen|-> <kernelErr|-> <kernelShape d,d,…> <eq|ne|->
+  c01.dispatch  <ufunc> <method> <nin> <operand>… <initial: - | I operand> <out> <axisLen|-> <kernelErr|-> <kernelShape d,d,…> <eq|ne|->
       operand :=  U <a|q> <unit> <data> | B <data> | S <n> (<-> | u <unit>)… <data>
       unit    :=  <scale bits> <offset bits> <dim> <coeff bits> <factors> <repr>
       data    :=  <shape d,d,…> <allZero 0|1> <kind f|i|u|c|b|o> <itemsize> <constant 0|1> <first p/q>
@@ -126,10 +126,13 @@ def runStr (r : Run Float) : String :=
   | .error e => s!"err\t{e.str}\t{effsStr r.effects}"
   | .ok o =>
     let u := match o.unit with | some u => unitStr u | none => "none\tnone\tnone"
-    let f := match o.factor with | some f => bitsStr f | none => "none"
+    let f := match o.factor with
+      | some f => bitsStr f
+      | none => match o.factorFirst with | some f => "first:" ++ bitsStr f | none => "none"
     let z := match o.factorItemsize with | some n => toString n | none => "none"
     let e := match o.early with | some true => "1" | some false => "0" | none => "none"
-    s!"ok\t{u}\t{f}\t{z}\t{bitsStr o.mul}\t{e}\t{effsStr r.effects}"
+    let fi := match o.factorInitial with | some f => bitsStr f | none => "none"
+    s!"ok\t{u}\t{f}\t{z}\t{bitsStr o.mul}\t{e}\t{effsStr r.effects}\t{fi}"
 
 /-- `A <unit>` | `A-` | `N` | `[` … `]` -/
 partial def pObjs (acc : List (Obj Float)) : List String → Option (List (Obj Float) × List String)
@@ -162,6 +165,10 @@ def stepC01 (st : DriverState) (fields : List String) : Option String :=
     let m ← pMethod m
     let nin ← nin.toNat?
     let (ins, rest) ← pOperands nin rest
+    let (ini, rest) ← (match rest with
+      | "-" :: r => some (none, r)
+      | "I" :: r => (pOperand r).map fun x => (some x.1, x.2)
+      | _ => none)
     let (out, rest) ← pOut rest
     match rest with
     | [ax, ke, ksh, wrap] =>
@@ -170,7 +177,7 @@ def stepC01 (st : DriverState) (fields : List String) : Option String :=
       let ke ← pErr ke
       let ksh ← pShape ksh
       let c : Call Float := { ufunc := f, method := m, inputs := ins, out := out, axisLen := ax, kernelErr := ke,
-                              kernelShape := ksh }
+                              kernelShape := ksh, initial := ini }
       let r := dispatch C c
       if wrap == "eq" then some (runStr (eqNeOperator false r))
       else if wrap == "ne" then some (runStr (eqNeOperator true r))
